@@ -540,7 +540,15 @@ class TypeGen:
         special = d(st.integers(0, 99)) if flavor == "dataclass" and agg is None else 100
         if special < 5 and cfg["undefined"]:
             # Union[T, UndefinedType] = Undefined
-            f["t"] = {"k": "union", "alts": [f["t"], {"k": "undefined"}]}
+            if cfg["constraints"] and cfg.get("constraints_around_optional", True) and chance(d, 0.4):
+                # Annotated[Union[T, UndefinedType], schema(...)]: metadata wrapped around the union (the constraints apply to T's values)
+                base = pick(d, ["int", "str", "float"])
+                c = self.constraints(base)
+                f["t"] = {"k": "union", "alts": [{"k": base}, {"k": "undefined"}]}
+                if c:
+                    f["t"] = {"k": "ann", "of": f["t"], "c": c}
+            else:
+                f["t"] = {"k": "union", "alts": [f["t"], {"k": "undefined"}]}
             f["default"] = {"c": ["undef"]}
             has_default = False
         elif special < 9:
